@@ -27,16 +27,20 @@ type logHasher struct {
 
 func newLogHasher() *logHasher { return &logHasher{} }
 
-func (l *logHasher) note(i int, c *Case, vs []Violation) {
+func (l *logHasher) note(i int, c *Case, vs []Violation) string {
+	ch := sha256.New()
+	fmt.Fprintf(ch, "case %d\n", i)
+	ch.Write(caseHash)
+	for _, v := range vs {
+		fmt.Fprintf(ch, "V %s %s\n", v.Oracle, v.Signature)
+	}
+	one := ch.Sum(nil)
 	hh := sha256.New()
 	hh.Write(l.h[:])
-	fmt.Fprintf(hh, "case %d\n", i)
-	hh.Write(caseHash)
-	for _, v := range vs {
-		fmt.Fprintf(hh, "V %s %s\n", v.Oracle, v.Signature)
-	}
+	hh.Write(one)
 	copy(l.h[:], hh.Sum(nil))
 	caseHash = caseHash[:0]
+	return hex.EncodeToString(one[:12])
 }
 
 func (l *logHasher) sum() string { return hex.EncodeToString(l.h[:]) }
